@@ -124,14 +124,51 @@ func errName(err error) string {
 		return "EClosed"
 	case mux.ErrQFull:
 		return "EFull"
+	case context.Canceled:
+		return "ECtx"
 	}
 	return ""
+}
+
+// a value as the callbacks return it and the caches hold it: an integer, or Go's nil
+type val struct {
+	Nil bool
+	V   int64
+	Bad bool // neither: something no callback of this harness returned
+}
+
+func toVal(x interface{}) val {
+	if x == nil {
+		return val{Nil: true}
+	}
+	if v, ok := x.(int64); ok {
+		return val{V: v}
+	}
+	return val{V: -888888, Bad: true}
+}
+func (v val) iface() interface{} {
+	if v.Nil {
+		return nil
+	}
+	return v.V
+}
+func (v val) coq() string {
+	if v.Nil {
+		return "None"
+	}
+	return "(Some " + vh.CoqZ(v.V) + ")"
+}
+func (v val) String() string {
+	if v.Nil {
+		return "nil"
+	}
+	return strconv.FormatInt(v.V, 10)
 }
 
 // result of an API call as a Coq term of type res
 type result struct {
 	Kind string // ok nil err panic hang other
-	V    int64
+	V    val
 	E    string
 	Text string
 }
@@ -139,7 +176,7 @@ type result struct {
 func (r result) coq() string {
 	switch r.Kind {
 	case "ok":
-		return "(ROk " + vh.CoqZ(r.V) + ")"
+		return "(ROk " + r.V.coq() + ")"
 	case "nil":
 		return "RNil"
 	case "err":
@@ -152,7 +189,7 @@ func (r result) coq() string {
 func (r result) String() string {
 	switch r.Kind {
 	case "ok":
-		return fmt.Sprintf("ok %d", r.V)
+		return "ok " + r.V.String()
 	case "err":
 		return "err " + r.E
 	}
@@ -162,20 +199,22 @@ func (r result) String() string {
 	return r.Kind
 }
 
-func mkResult(v interface{}, err error) result {
+// (nil, nil) is the answer of a successful delete; from any other call it is the value nil
+func mkResult(v interface{}, err error, isDelete bool) result {
 	if err != nil {
 		if n := errName(err); n != "" {
 			return result{Kind: "err", E: n}
 		}
 		return result{Kind: "other", Text: err.Error()}
 	}
-	if v == nil {
+	if v == nil && isDelete {
 		return result{Kind: "nil"}
 	}
-	if x, ok := v.(int64); ok {
-		return result{Kind: "ok", V: x}
+	x := toVal(v)
+	if x.Bad {
+		return result{Kind: "other", Text: fmt.Sprintf("%T %v", v, v)}
 	}
-	return result{Kind: "other", Text: fmt.Sprintf("%T %v", v, v)}
+	return result{Kind: "ok", V: x}
 }
 
 // ---------------------------------------------------------------- operations
@@ -198,7 +237,19 @@ type opSpec struct {
 	Op     int   `json:"op"`
 	K      int64 `json:"k"`
 	D      int64 `json:"d"`
-	Faults []int `json:"f"` // per store callback of this operation, in call order: 0 ok, 1 error, 2 error that reads as not-found
+	// per store callback of this operation, in call order.  units: 0 ok, 1 error, 2 error that reads as not-found,
+	// 3 "nil, no error"; tens: 1 = the callback cancels the caller's context when it is entered, 2 = just before
+	// it returns success
+	Faults []int `json:"f"`
+}
+
+func (o opSpec) cancels() bool {
+	for _, f := range o.Faults {
+		if f >= 10 {
+			return true
+		}
+	}
+	return false
 }
 
 func (o opSpec) coq() string {
@@ -221,7 +272,7 @@ func (o opSpec) String() string {
 func coqFaults(fs []int) string {
 	out := make([]string, len(fs))
 	for i, f := range fs {
-		out[i] = []string{"FOk", "FErr", "FNF"}[f]
+		out[i] = []string{"FOk", "FErr", "FNF", "FNil"}[f%10]
 	}
 	return vh.CoqList(out)
 }
@@ -235,34 +286,62 @@ type opCtx struct {
 	pos    int
 	onDone func() // called once, on the first Done()
 	once   sync.Once
-	tagged bool  // scheduled runs: hand the group a tkey
+	tagged bool  // hand the group a tkey (only where the logging facade strips it again)
 	fast   bool  // the caller-side Get of DoGet has been seen
 	gid    int64 // scheduled runs: goroutine of the caller
+
+	cmu       sync.Mutex
+	done      chan struct{}
+	cancelled bool
 }
+
+func newOpCtx(id int, spec opSpec) *opCtx { return &opCtx{id: id, spec: spec, done: make(chan struct{})} }
 
 func (c *opCtx) Deadline() (time.Time, bool) { return time.Time{}, false }
 func (c *opCtx) Done() <-chan struct{} {
 	if c.onDone != nil {
 		c.once.Do(c.onDone)
 	}
+	return c.done
+}
+func (c *opCtx) Err() error {
+	c.cmu.Lock()
+	defer c.cmu.Unlock()
+	if c.cancelled {
+		return context.Canceled
+	}
 	return nil
 }
-func (c *opCtx) Err() error                        { return nil }
+func (c *opCtx) cancel() {
+	c.cmu.Lock()
+	defer c.cmu.Unlock()
+	if !c.cancelled && c.done != nil {
+		c.cancelled = true
+		close(c.done)
+	}
+}
+func (c *opCtx) wasCancelled() bool {
+	c.cmu.Lock()
+	defer c.cmu.Unlock()
+	return c.cancelled
+}
 func (c *opCtx) Value(key interface{}) interface{} { return nil }
-func (c *opCtx) nextFault() int {
+
+// the script entry of the next store callback: (behaviour, cancel mode)
+func (c *opCtx) nextFault() (int, int) {
 	if c.pos < len(c.spec.Faults) {
 		f := c.spec.Faults[c.pos]
 		c.pos++
-		return f
+		return f % 10, f / 10
 	}
-	return 0
+	return 0, 0
 }
 
 func ctxOp(ctx context.Context) *opCtx {
 	if c, ok := ctx.(*opCtx); ok {
 		return c
 	}
-	return &opCtx{id: -1}
+	return newOpCtx(-1, opSpec{})
 }
 
 type addData struct{ k, d int64 }
@@ -273,9 +352,9 @@ type event struct {
 	Kind  string // get peek set del | load add upd upsert delete
 	K     int64
 	D     int64
-	V     int64 // value of set / read result
-	Has   bool  // read hit, or pre present (upsert)
-	Pre   int64
+	V     val  // value of set / read result
+	Has   bool // read hit
+	Pre   val
 	R     result // outcome of a store callback
 	Op    int    // operation id for store callbacks (-1 unknown)
 	W     int    // cache index for cache calls (-1 unknown)
@@ -294,20 +373,20 @@ func (e event) isRead() bool { return e.Kind == "get" || e.Kind == "peek" }
 
 func coqSres(r result) string {
 	if r.Kind == "ok" {
-		return "(SOk " + vh.CoqZ(r.V) + ")"
+		return "(SOk " + r.V.coq() + ")"
 	}
 	return "(SErr " + r.E + ")"
 }
-func coqOptZ(v int64, ok bool) string { return vh.CoqOpt(vh.CoqZ(v), ok) }
+func coqOptVal(v val, ok bool) string { return vh.CoqOpt(v.coq(), ok) }
 
 func (e event) coq() string {
 	switch e.Kind {
 	case "get":
-		return fmt.Sprintf("(EvGet %s %s)", vh.CoqZ(e.K), coqOptZ(e.V, e.Has))
+		return fmt.Sprintf("(EvGet %s %s)", vh.CoqZ(e.K), coqOptVal(e.V, e.Has))
 	case "peek":
-		return fmt.Sprintf("(EvPeek %s %s)", vh.CoqZ(e.K), coqOptZ(e.V, e.Has))
+		return fmt.Sprintf("(EvPeek %s %s)", vh.CoqZ(e.K), coqOptVal(e.V, e.Has))
 	case "set":
-		return fmt.Sprintf("(EvSet %s %s)", vh.CoqZ(e.K), vh.CoqZ(e.V))
+		return fmt.Sprintf("(EvSet %s %s)", vh.CoqZ(e.K), e.V.coq())
 	case "del":
 		return fmt.Sprintf("(EvDel %s)", vh.CoqZ(e.K))
 	case "load":
@@ -315,9 +394,9 @@ func (e event) coq() string {
 	case "add":
 		return fmt.Sprintf("(EvAdd %s %s %s)", vh.CoqZ(e.K), vh.CoqZ(e.D), coqSres(e.R))
 	case "upd":
-		return fmt.Sprintf("(EvUpd %s %s %s %s)", vh.CoqZ(e.K), vh.CoqZ(e.D), vh.CoqZ(e.Pre), coqSres(e.R))
+		return fmt.Sprintf("(EvUpd %s %s %s %s)", vh.CoqZ(e.K), vh.CoqZ(e.D), e.Pre.coq(), coqSres(e.R))
 	case "upsert":
-		return fmt.Sprintf("(EvUpsert %s %s %s %s)", vh.CoqZ(e.K), vh.CoqZ(e.D), coqOptZ(e.Pre, e.Has), coqSres(e.R))
+		return fmt.Sprintf("(EvUpsert %s %s %s %s)", vh.CoqZ(e.K), vh.CoqZ(e.D), e.Pre.coq(), coqSres(e.R))
 	case "delete":
 		if e.R.Kind == "nil" {
 			return fmt.Sprintf("(EvDelete %s None)", vh.CoqZ(e.K))
@@ -331,7 +410,7 @@ func (e event) String() string {
 	case "get", "peek":
 		s := fmt.Sprintf("%s(%d)=", e.Kind, e.K)
 		if e.Has {
-			s += strconv.FormatInt(e.V, 10)
+			s += e.V.String()
 		} else {
 			s += "miss"
 		}
@@ -340,7 +419,7 @@ func (e event) String() string {
 		}
 		return s
 	case "set":
-		return fmt.Sprintf("set(%d,%d)", e.K, e.V)
+		return fmt.Sprintf("set(%d,%s)", e.K, e.V)
 	case "del":
 		return fmt.Sprintf("del(%d)", e.K)
 	case "load", "delete":
@@ -348,12 +427,9 @@ func (e event) String() string {
 	case "add":
 		return fmt.Sprintf("add(%d,%d)->%s", e.K, e.D, e.R)
 	case "upd":
-		return fmt.Sprintf("upd(%d,%d,pre=%d)->%s", e.K, e.D, e.Pre, e.R)
+		return fmt.Sprintf("upd(%d,%d,pre=%s)->%s", e.K, e.D, e.Pre, e.R)
 	case "upsert":
-		if e.Has {
-			return fmt.Sprintf("upsert(%d,%d,pre=%d)->%s", e.K, e.D, e.Pre, e.R)
-		}
-		return fmt.Sprintf("upsert(%d,%d,pre=nil)->%s", e.K, e.D, e.R)
+		return fmt.Sprintf("upsert(%d,%d,pre=%s)->%s", e.K, e.D, e.Pre, e.R)
 	}
 	return e.Kind
 }
@@ -406,11 +482,13 @@ func (h *hist) since(m int) []event {
 	defer h.mu.Unlock()
 	return append([]event(nil), h.log[m:]...)
 }
-func (h *hist) storeValue(k int64) (int64, bool) {
+func (h *hist) storeValue(k int64) val {
 	h.mu.Lock()
 	defer h.mu.Unlock()
-	v, ok := h.m[k]
-	return v, ok
+	if v, ok := h.m[k]; ok {
+		return val{V: v}
+	}
+	return val{Nil: true}
 }
 
 func (h *hist) write(k, d int64) int64 {
@@ -428,135 +506,112 @@ func faultErr(f int) error {
 	}
 	return nil
 }
-func sresOf(v int64, err error) result {
+func sresOf(v val, err error) result {
 	if err != nil {
 		return result{Kind: "err", E: errName(err)}
 	}
 	return result{Kind: "ok", V: v}
 }
 
-func toI64(v interface{}) (int64, bool) {
-	x, ok := v.(int64)
-	if !ok {
-		return -888888, v != nil
+// the common frame of the five callbacks: gate (scheduled runs), script entry, cancellation on script, log
+func (h *hist) callback(ctx context.Context, kind string, k, d int64, pre val, body func(f int) (val, error)) (interface{}, error) {
+	oc := ctxOp(ctx)
+	if h.gate != nil {
+		h.gate(oc, -1)
 	}
-	return x, true
+	f, cm := oc.nextFault()
+	if cm == 1 {
+		oc.cancel()
+	}
+	h.mu.Lock()
+	v, err := body(f)
+	r := sresOf(v, err)
+	if kind == "delete" && err == nil {
+		r = result{Kind: "nil"}
+	}
+	h.log = append(h.log, event{Kind: kind, K: k, D: d, Pre: pre, R: r, Op: oc.id, W: -1})
+	h.mu.Unlock()
+	if cm == 2 && err == nil {
+		oc.cancel()
+	}
+	if err != nil {
+		return nil, err
+	}
+	return v.iface(), nil
 }
 
 func (h *hist) loadFn(ctx context.Context, d interface{}) (interface{}, error) {
-	oc := ctxOp(ctx)
-	if h.gate != nil {
-		h.gate(oc, -1)
-	}
 	k := keyID(d)
-	f := oc.nextFault()
-	h.mu.Lock()
-	defer h.mu.Unlock()
-	var v int64
-	err := faultErr(f)
-	if err == nil {
-		var ok bool
-		if v, ok = h.m[k]; !ok {
-			err = errNF
+	return h.callback(ctx, "load", k, 0, val{}, func(f int) (val, error) {
+		if err := faultErr(f); err != nil {
+			return val{}, err
 		}
-	}
-	h.log = append(h.log, event{Kind: "load", K: k, R: sresOf(v, err), Op: oc.id, W: -1})
-	if err != nil {
-		return nil, err
-	}
-	return v, nil
+		if v, ok := h.m[k]; ok {
+			return val{V: v}, nil
+		}
+		if f == 3 {
+			return val{Nil: true}, nil // a missing row reported as (nil, nil)
+		}
+		return val{}, errNF
+	})
 }
 
 func (h *hist) addFn(ctx context.Context, d interface{}) (interface{}, error) {
-	oc := ctxOp(ctx)
-	if h.gate != nil {
-		h.gate(oc, -1)
-	}
 	a, _ := d.(addData)
-	f := oc.nextFault()
-	h.mu.Lock()
-	defer h.mu.Unlock()
-	var v int64
-	err := faultErr(f)
-	if err == nil {
-		if _, ok := h.m[a.k]; ok {
-			err = errExists
-		} else {
-			v = h.write(a.k, a.d)
+	return h.callback(ctx, "add", a.k, a.d, val{}, func(f int) (val, error) {
+		if err := faultErr(f); err != nil {
+			return val{}, err
 		}
-	}
-	h.log = append(h.log, event{Kind: "add", K: a.k, D: a.d, R: sresOf(v, err), Op: oc.id, W: -1})
-	if err != nil {
-		return nil, err
-	}
-	return v, nil
+		if _, ok := h.m[a.k]; ok {
+			return val{}, errExists
+		}
+		if f == 3 {
+			return val{Nil: true}, nil // nothing stored, nil answered
+		}
+		return val{V: h.write(a.k, a.d)}, nil
+	})
 }
 
 func (h *hist) updFn(ctx context.Context, d interface{}, e interface{}) (interface{}, error) {
-	oc := ctxOp(ctx)
-	if h.gate != nil {
-		h.gate(oc, -1)
-	}
 	a, _ := d.(addData)
-	pre, _ := toI64(e)
-	f := oc.nextFault()
-	h.mu.Lock()
-	defer h.mu.Unlock()
-	var v int64
-	err := faultErr(f)
-	if err == nil {
-		if _, ok := h.m[a.k]; !ok {
-			err = errMissing
-		} else {
-			v = h.write(a.k, a.d)
+	return h.callback(ctx, "upd", a.k, a.d, toVal(e), func(f int) (val, error) {
+		if err := faultErr(f); err != nil {
+			return val{}, err
 		}
-	}
-	h.log = append(h.log, event{Kind: "upd", K: a.k, D: a.d, Pre: pre, R: sresOf(v, err), Op: oc.id, W: -1})
-	if err != nil {
-		return nil, err
-	}
-	return v, nil
+		if _, ok := h.m[a.k]; !ok {
+			return val{}, errMissing
+		}
+		if f == 3 {
+			delete(h.m, a.k) // the row becomes nil
+			return val{Nil: true}, nil
+		}
+		return val{V: h.write(a.k, a.d)}, nil
+	})
 }
 
 func (h *hist) upsertFn(ctx context.Context, d interface{}, e interface{}) (interface{}, error) {
-	oc := ctxOp(ctx)
-	if h.gate != nil {
-		h.gate(oc, -1)
-	}
 	a, _ := d.(addData)
-	pre, has := toI64(e)
-	f := oc.nextFault()
-	h.mu.Lock()
-	defer h.mu.Unlock()
-	var v int64
-	err := faultErr(f)
-	if err == nil {
-		v = h.write(a.k, a.d)
-	}
-	h.log = append(h.log, event{Kind: "upsert", K: a.k, D: a.d, Pre: pre, Has: has, R: sresOf(v, err), Op: oc.id, W: -1})
-	if err != nil {
-		return nil, err
-	}
-	return v, nil
+	return h.callback(ctx, "upsert", a.k, a.d, toVal(e), func(f int) (val, error) {
+		if err := faultErr(f); err != nil {
+			return val{}, err
+		}
+		if f == 3 {
+			delete(h.m, a.k)
+			return val{Nil: true}, nil
+		}
+		return val{V: h.write(a.k, a.d)}, nil
+	})
 }
 
 func (h *hist) deleteFn(ctx context.Context, d interface{}) error {
-	oc := ctxOp(ctx)
-	if h.gate != nil {
-		h.gate(oc, -1)
-	}
 	k := keyID(d)
-	f := oc.nextFault()
-	h.mu.Lock()
-	defer h.mu.Unlock()
-	err := faultErr(f)
-	r := result{Kind: "nil"}
-	if err == nil {
+	_, err := h.callback(ctx, "delete", k, 0, val{}, func(f int) (val, error) {
+		if err := faultErr(f); err != nil {
+			return val{}, err
+		}
 		delete(h.m, k)
-	} else {
-		r = result{Kind: "err", E: errName(err)}
-	}
-	h.log = append(h.log, event{Kind: "delete", K: k, R: r, Op: oc.id, W: -1})
+		return val{Nil: true}, nil
+	})
 	return err
 }
 
@@ -587,9 +642,8 @@ func (c *wcache) Peek(key interface{}) (interface{}, bool) {
 		c.h.gate(oc, c.idx)
 	}
 	v, ok := c.inner.Peek(key)
-	x, _ := toI64(v)
 	c.h.mu.Lock()
-	c.h.log = append(c.h.log, event{Kind: "peek", K: keyID(key), V: x, Has: ok, W: c.idx, Op: opID(oc)})
+	c.h.log = append(c.h.log, event{Kind: "peek", K: keyID(key), V: toVal(v), Has: ok, W: c.idx, Op: opID(oc)})
 	c.h.mu.Unlock()
 	return v, ok
 }
@@ -607,9 +661,8 @@ func (c *wcache) Get(key interface{}) (interface{}, bool) {
 		}
 	}
 	v, ok := c.inner.Get(key)
-	x, _ := toI64(v)
 	c.h.mu.Lock()
-	c.h.log = append(c.h.log, event{Kind: "get", K: keyID(key), V: x, Has: ok, W: c.idx, Op: opID(oc), Fast: fast})
+	c.h.log = append(c.h.log, event{Kind: "get", K: keyID(key), V: toVal(v), Has: ok, W: c.idx, Op: opID(oc), Fast: fast})
 	c.h.mu.Unlock()
 	return v, ok
 }
@@ -620,9 +673,8 @@ func (c *wcache) Set(key interface{}, value interface{}) {
 		c.h.gate(oc, c.idx)
 	}
 	c.inner.Set(key, value)
-	x, _ := toI64(value)
 	c.h.mu.Lock()
-	c.h.log = append(c.h.log, event{Kind: "set", K: keyID(key), V: x, W: c.idx, Op: opID(oc)})
+	c.h.log = append(c.h.log, event{Kind: "set", K: keyID(key), V: toVal(value), W: c.idx, Op: opID(oc)})
 	c.h.mu.Unlock()
 }
 
@@ -639,20 +691,20 @@ func (c *wcache) Delete(key interface{}) {
 
 // what the group's caches hold for a key, read below the logging layer without touching the LRU order.
 // A key found in more than one worker's cache is reported as the impossible value -1.
-func (h *hist) cachedValue(kind int, id int64) (int64, bool) {
+func (h *hist) cachedValue(kind int, id int64) (val, bool) {
 	key := mkKey(kind, id)
 	found := 0
-	var val int64
+	var x val
 	for _, c := range h.caches {
 		if v, ok := c.inner.Peek(key); ok {
 			found++
-			val, _ = toI64(v)
+			x = toVal(v)
 		}
 	}
 	if found > 1 {
-		return -1, true
+		return val{V: -1}, true
 	}
-	return val, found == 1
+	return x, found == 1
 }
 
 // ---------------------------------------------------------------- building a group and calling it
@@ -741,7 +793,7 @@ func callOp(grp *mux.WorkerGrp, h *hist, kind int, oc *opCtx) (res result) {
 	case opUpsertRenew:
 		v, err = grp.DoUpsertThenRenewInCache(oc, h.upsertFn, key, data)
 	}
-	return mkResult(v, err)
+	return mkResult(v, err, o.Op == opDelete)
 }
 
 // the same with a generous bound on a call the model says must return
@@ -775,10 +827,20 @@ func coqCfg(g *grpSpec) string {
 	return fmt.Sprintf("(mkCfg %s %s %s %s)", vh.CoqZ(int64(g.N)), capS, vh.CoqList(hs), vh.CoqList(in))
 }
 
-func coqSnap(vals []int64, has []bool) string {
+// cache snapshot: per key, not cached (None) or the cached value, which may be nil (Some None)
+func coqCacheSnap(vals []val, has []bool) string {
 	out := make([]string, len(vals))
 	for i := range vals {
-		out[i] = coqOptZ(vals[i], has[i])
+		out[i] = coqOptVal(vals[i], has[i])
+	}
+	return vh.CoqList(out)
+}
+
+// store snapshot: per key the row's value, nil when there is no row
+func coqStoreSnap(vals []val) string {
+	out := make([]string, len(vals))
+	for i := range vals {
+		out[i] = vals[i].coq()
 	}
 	return vh.CoqList(out)
 }
